@@ -149,24 +149,90 @@ def gen_known(repo):
                 "Definition partial_reset_zeroes : list string := [" + "; ".join(cs(x) for x in names) + "].\n")
     o.add("partial_reset", partial_reset)
 
+    def is_doc(n):
+        return isinstance(n, ast.Expr) and isinstance(n.value, ast.Constant) and isinstance(n.value.value, str)
+
+    def is_log(n):
+        """a logging call whose arguments only read (names, attributes, constants, f-strings, len/str/repr of those)"""
+        if not (isinstance(n, ast.Expr) and isinstance(n.value, ast.Call)):
+            return False
+        f = n.value.func
+        if not (isinstance(f, ast.Attribute) and isinstance(f.value, ast.Name) and f.value.id in ("logger", "logging", "log", "LOGGER")
+                and f.attr in ("debug", "info", "warning", "error", "critical", "exception", "log")):
+            return False
+        for a in list(n.value.args) + [k.value for k in n.value.keywords]:
+            for x in ast.walk(a):
+                if isinstance(x, ast.Call) and not (isinstance(x.func, ast.Name) and x.func.id in ("len", "str", "repr")):
+                    return False
+                if isinstance(x, (ast.NamedExpr, ast.Await, ast.Yield, ast.YieldFrom, ast.Lambda)):
+                    return False
+        return True
+
+    def len_guard(test):
+        """(is_positive, canonical text) when the test is, len() being a non-negative int, `len(E) > 0` or its negation
+        spelled differently (`len(E) == 0`, `not len(E) > 0`, `0 < len(E)`, `len(E) >= 1` ...); None otherwise"""
+        neg = False
+        while isinstance(test, ast.UnaryOp) and isinstance(test.op, ast.Not):
+            neg, test = not neg, test.operand
+        if not (isinstance(test, ast.Compare) and len(test.ops) == 1):
+            return None
+        a, op, b = test.left, type(test.ops[0]), test.comparators[0]
+
+        def is_len(x):
+            return (isinstance(x, ast.Call) and isinstance(x.func, ast.Name) and x.func.id == "len"
+                    and len(x.args) == 1 and not x.keywords and isinstance(x.args[0], (ast.Name, ast.Attribute)))
+
+        def is_int(x):
+            return isinstance(x, ast.Constant) and type(x.value) is int
+        if is_int(a) and is_len(b):
+            flip = {ast.Lt: ast.Gt, ast.Gt: ast.Lt, ast.LtE: ast.GtE, ast.GtE: ast.LtE, ast.Eq: ast.Eq, ast.NotEq: ast.NotEq}
+            if op not in flip:
+                return None
+            a, op, b = b, flip[op], a
+        if not (is_len(a) and is_int(b)):
+            return None
+        key = (op, b.value)
+        if key in ((ast.Gt, 0), (ast.NotEq, 0), (ast.GtE, 1)):
+            pos = True
+        elif key in ((ast.Eq, 0), (ast.LtE, 0), (ast.Lt, 1)):
+            pos = False
+        else:
+            return None
+        return (pos != neg, f"len({ast.unparse(a.args[0])}) > 0")
+
     def writer_ops():
         mod = py2v.parse(repo, "laspy/laswriter.py")
         cls = py2v.find_class(mod, "LasWriter")
         init = py2v.find_func(cls, "__init__")
-        hdr = [ast.unparse(n) for n in simple_statements(init) if "self.header" in ast.unparse(n)]
+        hdr = [ast.unparse(n) for n in simple_statements(init) if "self.header" in ast.unparse(n) and not is_log(n)]
         we = py2v.find_func(cls, "write_evlrs")
-        ifs = [n for n in we.body if isinstance(n, ast.If)]
-        if len(ifs) != 2 or not isinstance(ifs[0].body[-1], ast.Raise) or ifs[0].orelse or ifs[1].orelse:
+        body = [n for n in we.body if not is_doc(n) and not is_log(n)]
+        if len(body) < 2 or not all(isinstance(n, ast.If) and not n.orelse for n in body[:2]) \
+                or not isinstance(body[0].body[-1], ast.Raise):
             raise py2v.Untranslatable("LasWriter.write_evlrs: expected a version guard that raises and one guarded block")
-        if [n for n in we.body if not isinstance(n, ast.If)
-                and not (isinstance(n, ast.Expr) and isinstance(n.value, ast.Constant))]:
+        second, rest = body[1], body[2:]
+        g = len_guard(second.test)
+        early = (len(second.body) == 1 and isinstance(second.body[0], ast.Return)
+                 and (second.body[0].value is None
+                      or (isinstance(second.body[0].value, ast.Constant) and second.body[0].value.value is None)))
+        if early and rest:
+            # `if <nothing to write>: return` followed by the block  ==  `if <something to write>: block`
+            if g is None or g[0]:
+                raise py2v.Untranslatable("LasWriter.write_evlrs: early return under a guard that is not `len(..) == 0`")
+            guard, block = g[1], rest
+        elif not rest:
+            guard, block = (g[1] if g is not None and g[0] else ast.unparse(second.test)), second.body
+        else:
             raise py2v.Untranslatable("LasWriter.write_evlrs: statements outside the two guards")
+        block = [n for n in block if not is_doc(n) and not is_log(n)]
+        if not all(isinstance(n, (ast.Assign, ast.AugAssign, ast.AnnAssign, ast.Expr)) for n in block):
+            raise py2v.Untranslatable("LasWriter.write_evlrs: the guarded block is not a plain sequence of simple statements")
         return ("(* LasWriter.__init__: every simple statement that mentions self.header, in source order *)\n"
                 "Definition writer_header_ops : list string := [\n  " + ";\n  ".join(cs(x) for x in hdr) + "].\n\n"
                 "(* LasWriter.write_evlrs: the version guard (raises), the guard of the block that writes, its statements *)\n"
-                "Definition write_evlrs_version_guard : string := " + cs(ast.unparse(ifs[0].test)) + ".\n"
-                "Definition write_evlrs_guard : string := " + cs(ast.unparse(ifs[1].test)) + ".\n"
-                "Definition write_evlrs_ops : list string := [\n  " + ";\n  ".join(cs(ast.unparse(n)) for n in simple_statements(ifs[1])) + "].\n")
+                "Definition write_evlrs_version_guard : string := " + cs(ast.unparse(body[0].test)) + ".\n"
+                "Definition write_evlrs_guard : string := " + cs(guard) + ".\n"
+                "Definition write_evlrs_ops : list string := [\n  " + ";\n  ".join(cs(ast.unparse(n)) for n in block) + "].\n")
     o.add("writer", writer_ops)
     return o
 
